@@ -291,6 +291,330 @@ example (k k' : Nat) (s : Nat) (script : List Op) :
     (run (World.fresh k) (.setSeed s :: script)).2 = (run (World.fresh k') (.setSeed s :: script)).2 := by
   rw [C14_set_seed_script (World.fresh k) (World.fresh k') s script rfl rfl rfl rfl]
 
+/-! same-process reproducibility: closed scripts after any history -/
+
+/-- the worlds agree on everything a script scoped by (G, N, K) can read -/
+structure Agree (w1 w2 : World) (G N K : List Nat) : Prop where
+  glob : w1.glob = w2.glob
+  legacy : w1.legacy = w2.legacy
+  ds : w1.dsSeed = w2.dsSeed
+  heap : ∀ h ∈ G, alGet w1.heap h = alGet w2.heap h
+  nodes : ∀ n ∈ N, alGet w1.nodes n = alGet w2.nodes n
+  sks : ∀ k ∈ K, alGet w1.sks k = alGet w2.sks k
+  /-- a node created inside the script refers to a generator created inside the script -/
+  refs : ∀ n ∈ N, ∀ nd, alGet w1.nodes n = some nd → ∀ h, nd.spec = .gen h → h ∈ G
+
+def specIn (G : List Nat) : SeedSpec → Prop
+  | .gen h => h ∈ G
+  | _ => True
+
+/-- what an operation may refer to, and what it defines -/
+def opScoped (G N K : List Nat) : Op → Prop
+  | .initCall spec _ => specIn G spec
+  | .dataset spec _ => specIn G spec
+  | .mkRes _ spec => specIn G spec
+  | .initRes id .. => id ∈ N
+  | .initFb id _ => id ∈ N
+  | .runRes id .. => id ∈ N
+  | .fitSk id _ => id ∈ K
+  | _ => True
+
+def defs (G N K : List Nat) : Op → List Nat × List Nat × List Nat
+  | .newGen id _ => (id :: G, N, K)
+  | .mkRes id _ => (G, id :: N, K)
+  | .mkSk id => (G, N, id :: K)
+  | _ => (G, N, K)
+
+def scriptScoped : List Nat → List Nat → List Nat → List Op → Prop
+  | _, _, _, [] => True
+  | G, N, K, o :: os => opScoped G N K o ∧ scriptScoped (defs G N K o).1 (defs G N K o).2.1 (defs G N K o).2.2 os
+
+theorem alGet_alSet {α : Type} (l : List (Nat × α)) (k k' : Nat) (v : α) :
+    alGet (alSet l k v) k' = if k = k' then some v else alGet l k' := by
+  by_cases h : k = k'
+  · subst h; simp
+  · simp [h]
+
+theorem drawFrom_agree (w1 w2 : World) (G N K : List Nat) (spec : SeedSpec) (r : Req)
+    (ha : Agree w1 w2 G N K) (hs : specIn G spec) :
+    (drawFrom w1 spec r).2 = (drawFrom w2 spec r).2 ∧ Agree (drawFrom w1 spec r).1 (drawFrom w2 spec r).1 G N K := by
+  cases spec with
+  | none =>
+    simp only [drawFrom]
+    refine ⟨by rw [ha.glob], ?_⟩
+    exact { glob := by simp [ha.glob], legacy := ha.legacy, ds := ha.ds, heap := ha.heap, nodes := ha.nodes,
+            sks := ha.sks, refs := ha.refs }
+  | int s =>
+    simp only [drawFrom]
+    exact ⟨trivial, ha⟩
+  | gen h =>
+    have hh : alGet w1.heap h = alGet w2.heap h := ha.heap h hs
+    simp only [drawFrom]
+    rw [← hh]
+    cases hg : alGet w1.heap h with
+    | none => exact ⟨rfl, ha⟩
+    | some g =>
+      refine ⟨rfl, ?_⟩
+      exact { glob := ha.glob, legacy := ha.legacy, ds := ha.ds, nodes := ha.nodes, sks := ha.sks, refs := ha.refs,
+              heap := by
+                intro h' hh'
+                simp only [alGet_alSet]
+                split
+                · rfl
+                · exact ha.heap h' hh' }
+
+theorem Agree.dropN {w1 w2 : World} {G N K : List Nat} {id : Nat} (h : Agree w1 w2 G (id :: N) K) :
+    Agree w1 w2 G N K :=
+  { glob := h.glob, legacy := h.legacy, ds := h.ds, heap := h.heap, sks := h.sks,
+    nodes := fun n hn => h.nodes n (List.mem_cons_of_mem _ hn),
+    refs := fun n hn => h.refs n (List.mem_cons_of_mem _ hn) }
+
+theorem agree_setNode {w1 w2 : World} {G N K : List Nat} (ha : Agree w1 w2 G N K) (id : Nat) (nd : NodeSt)
+    (hrefs : ∀ h, nd.spec = .gen h → h ∈ G) :
+    Agree { w1 with nodes := alSet w1.nodes id nd } { w2 with nodes := alSet w2.nodes id nd } G (id :: N) K :=
+  { glob := ha.glob, legacy := ha.legacy, ds := ha.ds, heap := ha.heap, sks := ha.sks,
+    nodes := by
+      intro n hn
+      simp only [alGet_alSet]
+      split
+      · rfl
+      · rename_i hne
+        rcases List.mem_cons.mp hn with rfl | hn'
+        · exact absurd rfl hne
+        · exact ha.nodes n hn',
+    refs := by
+      intro n hn x hx h hsp
+      simp only [alGet_alSet] at hx
+      split at hx
+      · cases hx; exact hrefs h hsp
+      · rename_i hne
+        rcases List.mem_cons.mp hn with rfl | hn'
+        · exact absurd rfl hne
+        · exact ha.refs n hn' x hx h hsp }
+
+theorem specIn_of_refs {w1 w2 : World} {G N K : List Nat} (ha : Agree w1 w2 G N K) (id : Nat) (hid : id ∈ N)
+    (nd : NodeSt) (hnd : alGet w1.nodes id = some nd) : specIn G nd.spec := by
+  cases hs : nd.spec with
+  | none => trivial
+  | int s => trivial
+  | gen h => exact ha.refs id hid nd hnd h hs
+
+theorem serveShared_agree (rs : List Req) (w1 w2 : World) (G N K : List Nat) (spec : SeedSpec)
+    (ha : Agree w1 w2 G N K) (hs : specIn G spec) :
+    (serveShared w1 spec rs).2 = (serveShared w2 spec rs).2
+    ∧ Agree (serveShared w1 spec rs).1 (serveShared w2 spec rs).1 G N K := by
+  induction rs generalizing w1 w2 with
+  | nil => exact ⟨rfl, ha⟩
+  | cons r rs ih =>
+    obtain ⟨ht, ha'⟩ := drawFrom_agree w1 w2 G N K spec r ha hs
+    obtain ⟨ht2, ha2⟩ := ih _ _ ha'
+    simp only [serveShared]
+    exact ⟨by rw [ht, ht2], ha2⟩
+
+/-- nodes are not touched by draws: Agree lets us transport a node look-up through a draw -/
+theorem agree_nodes_eq {w1 w2 : World} {G N K : List Nat} (ha : Agree w1 w2 G N K) (id : Nat) (hid : id ∈ N) :
+    alGet w1.nodes id = alGet w2.nodes id := ha.nodes id hid
+
+theorem step_agree (o : Op) (w1 w2 : World) (G N K : List Nat) (ha : Agree w1 w2 G N K)
+    (hs : opScoped G N K o) :
+    (step w1 o).2 = (step w2 o).2
+    ∧ Agree (step w1 o).1 (step w2 o).1 (defs G N K o).1 (defs G N K o).2.1 (defs G N K o).2.2 := by
+  cases o with
+  | setSeed s =>
+    refine ⟨rfl, ?_⟩
+    exact { glob := rfl, legacy := rfl, ds := ha.ds, heap := ha.heap, nodes := ha.nodes, sks := ha.sks, refs := ha.refs }
+  | dsSetSeed s =>
+    refine ⟨rfl, ?_⟩
+    exact { glob := ha.glob, legacy := ha.legacy, ds := rfl, heap := ha.heap, nodes := ha.nodes, sks := ha.sks, refs := ha.refs }
+  | newGen id s =>
+    refine ⟨rfl, ?_⟩
+    exact { glob := ha.glob, legacy := ha.legacy, ds := ha.ds, nodes := ha.nodes, sks := ha.sks,
+            heap := by
+              intro h hh
+              simp only [step, alGet_alSet]
+              split
+              · rfl
+              · rename_i hne
+                rcases List.mem_cons.mp hh with rfl | hh'
+                · exact absurd rfl hne
+                · exact ha.heap h hh',
+            refs := fun n hn x hx h hsp => List.mem_cons_of_mem _ (ha.refs n hn x hx h hsp) }
+  | initCall spec r =>
+    obtain ⟨ht, ha'⟩ := drawFrom_agree w1 w2 G N K spec r ha hs
+    simp only [step, defs]
+    exact ⟨by rw [ht], ha'⟩
+  | dataset spec r =>
+    cases spec with
+    | none =>
+      simp only [step, defs]
+      rw [← ha.ds]
+      obtain ⟨ht, ha'⟩ := drawFrom_agree w1 w2 G N K (.int w1.dsSeed) r ha trivial
+      exact ⟨by rw [ht], ha'⟩
+    | int s =>
+      simp only [step, defs]
+      obtain ⟨ht, ha'⟩ := drawFrom_agree w1 w2 G N K (.int s) r ha trivial
+      exact ⟨by rw [ht], ha'⟩
+    | gen h =>
+      simp only [step, defs]
+      obtain ⟨ht, ha'⟩ := drawFrom_agree w1 w2 G N K (.gen h) r ha hs
+      exact ⟨by rw [ht], ha'⟩
+  | legacyDraw r =>
+    simp only [step, defs]
+    refine ⟨by rw [ha.legacy], ?_⟩
+    exact { glob := ha.glob, legacy := by simp [ha.legacy], ds := ha.ds, heap := ha.heap, nodes := ha.nodes, sks := ha.sks,
+            refs := ha.refs }
+  | mkRes id spec =>
+    simp only [step, defs]
+    refine ⟨by simp, ?_⟩
+    apply agree_setNode ha
+    intro h hsp
+    simp only at hsp
+    subst hsp
+    exact hs
+  | initRes id rW rWin rBias =>
+    have hid : id ∈ N := hs
+    have hn := ha.nodes id hid
+    simp only [step, defs]
+    rw [← hn]
+    cases hnd : alGet w1.nodes id with
+    | none => exact ⟨rfl, ha⟩
+    | some nd =>
+      have hsp := specIn_of_refs ha id hid nd hnd
+      cases hspec : nd.spec with
+      | int s =>
+        simp only [hspec]
+        refine ⟨by simp, ?_⟩
+        exact (agree_setNode ha id _ (by intro h hh; simp [NodeSt.initOwn, hspec] at hh)).dropN
+      | none =>
+        simp only [hspec]
+        rw [hspec] at hsp
+        obtain ⟨t1, a1⟩ := drawFrom_agree w1 w2 G N K .none rW ha hsp
+        obtain ⟨t2, a2⟩ := drawFrom_agree _ _ G N K .none rWin a1 hsp
+        obtain ⟨t3, a3⟩ := drawFrom_agree _ _ G N K .none rBias a2 hsp
+        refine ⟨by rw [t1, t2, t3], ?_⟩
+        rw [t1, t2, t3]
+        exact (agree_setNode a3 id _ (by intro h hh; simp [hspec] at hh)).dropN
+      | gen g =>
+        simp only [hspec]
+        rw [hspec] at hsp
+        obtain ⟨t1, a1⟩ := drawFrom_agree w1 w2 G N K (.gen g) rW ha hsp
+        obtain ⟨t2, a2⟩ := drawFrom_agree _ _ G N K (.gen g) rWin a1 hsp
+        obtain ⟨t3, a3⟩ := drawFrom_agree _ _ G N K (.gen g) rBias a2 hsp
+        refine ⟨by rw [t1, t2, t3], ?_⟩
+        rw [t1, t2, t3]
+        exact (agree_setNode a3 id _ (by intro h hh; simp [hspec] at hh; subst hh; exact hsp)).dropN
+  | initFb id rWfb =>
+    have hid : id ∈ N := hs
+    have hn := ha.nodes id hid
+    simp only [step, defs]
+    rw [← hn]
+    cases hnd : alGet w1.nodes id with
+    | none => exact ⟨rfl, ha⟩
+    | some nd =>
+      have hsp := specIn_of_refs ha id hid nd hnd
+      cases hspec : nd.spec with
+      | int s =>
+        simp only [hspec]
+        refine ⟨by simp, ?_⟩
+        exact (agree_setNode ha id _ (by intro h hh; simp [NodeSt.initFbOwn, hspec] at hh)).dropN
+      | none =>
+        simp only [hspec]
+        rw [hspec] at hsp
+        obtain ⟨t1, a1⟩ := drawFrom_agree w1 w2 G N K .none rWfb ha hsp
+        refine ⟨by rw [t1], ?_⟩
+        rw [t1]
+        exact (agree_setNode a1 id _ (by intro h hh; simp [hspec] at hh)).dropN
+      | gen g =>
+        simp only [hspec]
+        rw [hspec] at hsp
+        obtain ⟨t1, a1⟩ := drawFrom_agree w1 w2 G N K (.gen g) rWfb ha hsp
+        refine ⟨by rw [t1], ?_⟩
+        rw [t1]
+        exact (agree_setNode a1 id _ (by intro h hh; simp [hspec] at hh; subst hh; exact hsp)).dropN
+  | runRes id input steps noise =>
+    have hid : id ∈ N := hs
+    have hn := ha.nodes id hid
+    simp only [step, defs]
+    rw [← hn]
+    cases hnd : alGet w1.nodes id with
+    | none => exact ⟨rfl, ha⟩
+    | some nd =>
+      have hsp := specIn_of_refs ha id hid nd hnd
+      cases hspec : nd.spec with
+      | int s =>
+        simp only [hspec]
+        refine ⟨by simp, ?_⟩
+        exact (agree_setNode ha id _ (by intro h hh; simp [NodeSt.runOwn, hspec] at hh)).dropN
+      | none =>
+        simp only [hspec]
+        rw [hspec] at hsp
+        obtain ⟨t1, a1⟩ := serveShared_agree (repeatReqs steps (stepReqs noise)) w1 w2 G N K .none ha hsp
+        refine ⟨by rw [t1], ?_⟩
+        rw [t1]
+        exact (agree_setNode a1 id _ (by intro h hh; simp [hspec] at hh)).dropN
+      | gen g =>
+        simp only [hspec]
+        rw [hspec] at hsp
+        obtain ⟨t1, a1⟩ := serveShared_agree (repeatReqs steps (stepReqs noise)) w1 w2 G N K (.gen g) ha hsp
+        refine ⟨by rw [t1], ?_⟩
+        rw [t1]
+        exact (agree_setNode a1 id _ (by intro h hh; simp [hspec] at hh; subst hh; exact hsp)).dropN
+  | mkSk id =>
+    simp only [step, defs]
+    refine ⟨by simp, ?_⟩
+    exact { glob := by simp [ha.glob], legacy := ha.legacy, ds := ha.ds, heap := ha.heap, nodes := ha.nodes, refs := ha.refs,
+            sks := by
+              intro k hk
+              simp only [alGet_alSet, ha.glob]
+              split
+              · rfl
+              · rename_i hne
+                rcases List.mem_cons.mp hk with rfl | hk'
+                · exact absurd rfl hne
+                · exact ha.sks k hk' }
+  | fitSk id data =>
+    have hid : id ∈ K := hs
+    have hk := ha.sks id hid
+    simp only [step, defs]
+    rw [← hk]
+    cases alGet w1.sks id with
+    | none => exact ⟨rfl, ha⟩
+    | some sk => exact ⟨rfl, ha⟩
+
+theorem run_agree (script : List Op) (w1 w2 : World) (G N K : List Nat) (ha : Agree w1 w2 G N K)
+    (hs : scriptScoped G N K script) : (run w1 script).2 = (run w2 script).2 := by
+  induction script generalizing w1 w2 G N K with
+  | nil => rfl
+  | cons o os ih =>
+    obtain ⟨ho, hrest⟩ := hs
+    obtain ⟨ht, ha'⟩ := step_agree o w1 w2 G N K ha ho
+    simp only [run]
+    rw [ht, ih _ _ _ _ _ ha' hrest]
+
+/-- **Setting the seeds makes a script reproducible after ANY earlier history, in the same process
+    or another one**: for arbitrary worlds w1, w2 (whatever was created, drawn, re-seeded or run
+    before — other nodes, generator objects, `datasets.set_seed`, unseeded draws), `set_seed(s)`
+    and `datasets.set_seed(d)` followed by a script that refers only to generator objects, nodes
+    and readouts it creates itself emits the same provenance for every array. -/
+theorem C14_set_seed_after_any_history (w1 w2 : World) (s d : Nat) (script : List Op)
+    (hs : scriptScoped [] [] [] script) :
+    (run w1 (.setSeed s :: .dsSetSeed d :: script)).2 = (run w2 (.setSeed s :: .dsSetSeed d :: script)).2 := by
+  have ha : Agree (step (step w1 (.setSeed s)).1 (.dsSetSeed d)).1 (step (step w2 (.setSeed s)).1 (.dsSetSeed d)).1 [] [] [] :=
+    { glob := rfl, legacy := rfl, ds := rfl,
+      heap := fun h hh => (by cases hh),
+      nodes := fun n hn => (by cases hn),
+      sks := fun k hk => (by cases hk),
+      refs := fun n hn => (by cases hn) }
+  have h := run_agree script _ _ [] [] [] ha hs
+  simp only [run]
+  rw [h]
+  rfl
+
+/-- the scope condition is satisfiable by a non-trivial script -/
+example : scriptScoped [] [] [] [.newGen 1 7, .mkRes 2 (.gen 1), .initRes 2 "W" "Win" "b", .mkRes 3 .none,
+    .initCall (.gen 1) "u", .runRes 2 "x" 3 [("n", true)], .mkSk 4, .fitSk 4 "d", .dataset .none "mg"] := by
+  simp [scriptScoped, opScoped, defs, specIn]
+
 /-! ### zero gain -/
 
 theorem serveAll_nil (g : GenSt) : serveAll g [] = (g, []) := rfl
